@@ -121,6 +121,20 @@ def check(ctx):
                                 ctx.violation('R10-cookie-line', fi, 'cookie line %r' % lit, 'the cookie is written as %s but verified as %s' % (name, sorted(cookie_attr)), line, clause='D')
                             else:
                                 ctx.holds('R10-cookie-line', fi, 'cookie line %r' % lit, 'embeds this run\'s digest under the verified name', line, clause='D')
+            # (W) the file holds the text that was hashed: a lossy error handler on the text file
+            # drops or replaces what the locale's encoding cannot represent -- identifiers included --
+            # while the cookie line still matches
+            if ev['ev'] == 'open':
+                c_ = ev['call']
+                errs = next((k.value for k in c_.keywords if k.arg == 'errors'), c_.args[4] if len(c_.args) > 4 else None)
+                st = 'open(..., errors=%s)' % (canon(errs) if errs is not None else None)
+                if errs is not None and once('R10-written-is-hashed', st):
+                    if isinstance(errs, ast.Constant) and errs.value in ('strict', None):
+                        ctx.holds('R10-written-is-hashed', fi, st, 'an unencodable character fails the write, nothing is published', line, clause='H')
+                    elif isinstance(errs, ast.Constant):
+                        ctx.violation('R10-written-is-hashed', fi, st, 'characters the default encoding cannot represent are silently dropped / replaced in the cache file (also inside identifiers) while the cookie, computed from the real text, still matches: a later run installs code that differs from the generated one', line, clause='H', witness=True)
+                    else:
+                        ctx.undecided('R10-written-is-hashed', fi, st, 'error handler of the cache file is not a constant', line, clause='H')
             # (P)
             if ev['ev'] == 'remove':
                 st = stmt_text(ev['eff'].node) + ' [path: %s]' % path_origin(ev['path'])
